@@ -145,8 +145,16 @@ func (p *Program) useSubRef(name string) {
 	}
 }
 
+// normType makes type spellings comparable: no spaces, any == interface{}, short package qualifiers.
+func normType(s string) string {
+	s = shortenKey(s)
+	s = strings.ReplaceAll(s, " ", "")
+	s = anyRe.ReplaceAllString(s, "interface{}")
+	return s
+}
+
 func (p *Program) typeTag(t types.Type) int {
-	k := types.TypeString(t, nil)
+	k := normType(types.TypeString(t, nil))
 	if n, ok := p.tagOf[k]; ok {
 		return n
 	}
@@ -158,10 +166,9 @@ func (p *Program) typeTag(t types.Type) int {
 
 func (p *Program) typeTagByName(name string) int {
 	// accept shortened names: resolve against known tags, else register the name
-	for k, n := range p.tagOf {
-		if k == name || shortenKey(k) == name {
-			return n
-		}
+	name = normType(name)
+	if n, ok := p.tagOf[name]; ok {
+		return n
 	}
 	n := len(p.tagName) + 1
 	p.tagOf[name] = n
